@@ -18,7 +18,7 @@ from scales.sink import ClientMessageSink, ClientMessageSinkStack, SinkProviderB
 ID = 'C07'
 LEVEL = 'exploration'
 RULE = ('Hypothesis-generated configurations (min_watermark 0-2, max_watermark 1-4, max_queue_len 0-4 or unbounded, '
-        'connection open delay 0-20 ms) and histories (<= 60 ops) of submit(timeout 20-200 ms or none) / complete(any lent '
+        'connection open delay 0-20 ms, up to 4 connections whose open is refused) and histories (<= 60 ops) of submit(timeout 20-200 ms or none) / complete(any lent '
         'request, reply or error) / complete two lent requests in the same instant / advance(1-150 ms) / one optional kill(connection, '
         'lent or idle) at a drawn step, against ClientTimeoutSink -> WatermarkPoolSink built from their providers over harness connections. '
         'Observed after every step: connections in existence <= max, no connection lent twice, FIFO start order of queued '
@@ -28,7 +28,7 @@ RULE = ('Hypothesis-generated configurations (min_watermark 0-2, max_watermark 1
         'reach connections (no capacity leaked). Non-trivial = a request expired while queued and a release happened '
         'afterwards, or two releases in one instant met a single waiter. distinct = distinct non-trivial plans.')
 ASSUMPTIONS = [
-    'connections open successfully (failed opens belong to C09)',
+    'a refused open fails the request it was made for and leaves the pool usable (its owner is told through on_faulted; what the owner then does belongs to C09); requests queued at that moment are not followed further',
     'a lent request that timed out no longer occupies its connection (the real serial transport reconnects)',
     'when expired requests may still sit in the queue, both queueing and a max-waiters error are accepted for a new request',
 ]
@@ -45,6 +45,8 @@ def strategy(tier):
       'min': st.integers(0, 2), 'max': st.sampled_from([1, 1, 2, 2, 3, 4]),
       'queue': st.one_of(st.none(), st.integers(0, 4)),
       'open_delay_ms': st.sampled_from([[0], [0], [5], [0, 20], [1, 0, 10]]),
+      # connections (by creation index, never the first) whose open is refused after its delay
+      'open_fails': st.one_of(st.just([]), st.just([]), st.lists(st.integers(1, 12), max_size=4, unique=True)),
   }).map(lambda c: dict(c, min=min(c['min'], c['max'])))
   pairs = [
       (8, st.tuples(st.just('submit'), st.sampled_from([None, None, 20, 20, 50, 100, 200])).map(list)),
@@ -69,6 +71,7 @@ class Conn(ClientMessageSink):
     self.opening = False
     self._open_ar = None
     self.killed = False
+    self.refused = False
 
   def __repr__(self):
     return 'conn%d' % self.idx
@@ -84,6 +87,14 @@ class Conn(ClientMessageSink):
 
       def done():
         self.opening = False
+        if self.idx in self.run.cfg.get('open_fails', ()):
+          # never became a connection; the pool still has on_faulted to raise and keeps working for its owner
+          self.refused = True
+          self._state = ChannelState.Closed
+          self.closed_at = loop.now()
+          self.run.on_open_refused(self)
+          ar.set_exception(OSError(111, 'connection refused (conn%d)' % self.idx))
+          return
         if self._state == ChannelState.Idle:
           self._state = ChannelState.Open
         ar.set(True)
@@ -158,6 +169,7 @@ class Req(object):
     self.reached_at = None
     self.answered = False
     self.stack = None
+    self.excused = False      # was queued when an open was refused: the pool reports the fault to its owner and does not open for waiters
     self.queued = False       # was waiting (neither on a connection nor completed) at the quiescent point after submission
     self.expect_closed_error = False
 
@@ -212,6 +224,13 @@ class Run(object):
         n += 1
     return n
 
+  def on_open_refused(self, conn):
+    self.flags.add('open_refused')
+    if len(self.live_conns()) != len([c for c in self.live_conns() if not c.opening]) or self.lent():
+      self.flags.add('open_refused_while_others_busy_or_opening')
+    for w in self.live_waiters():
+      w.excused = True
+
   def on_reach(self, r):
     if r.queued:
       # FIFO: no earlier live waiter may still be waiting
@@ -226,6 +245,7 @@ class Run(object):
     live_before = len(self.live_waiters())
     busy_before = self.busy()
     r = Req(len(self.reqs), None if timeout_ms is None else timeout_ms / 1000.0)
+    nconn_before = len(self.provider.conns)
     self.reqs.append(r)
     msg = MethodCallMessage(None, 'm', (r.id,), {})
     msg.properties['__vf_req'] = r
@@ -247,6 +267,8 @@ class Run(object):
         if not saturated or not (full or maybe_full):
           self.fail('maxwaiters-spurious', 'request %d failed with MaxWaitersError with %d live waiters (limit %r), %d of %d connections busy' % (
               r.id, live_before, qmax, busy_before, self.cfg['max']))
+      elif isinstance(err, OSError) and len(self.provider.conns) == nconn_before + 1 and self.provider.conns[-1].refused:
+        pass       # the connection opened for it was refused
       else:
         self.fail('unexpected-completion', 'request %d completed at once with %r' % (r.id, err))
       return
@@ -347,7 +369,7 @@ class Run(object):
             self.fail('waiter-not-failed', 'waiter %d was not failed with ServiceClosedError when the pool closed (%r)' % (
                 r.id, [type(m.error).__name__ for _, m in r.completions]))
     if not closed:
-      waiters = self.live_waiters()
+      waiters = [w for w in self.live_waiters() if not w.excused]
       if waiters and self.busy() < cfg['max']:
         self.fail('idle-capacity-with-waiters', 'requests %r wait while only %d of %d connections are busy (%d in existence)' % (
             [w.id for w in waiters], self.busy(), cfg['max'], len(live)))
@@ -373,7 +395,7 @@ class Run(object):
     self.invariants()
     closed = self.pool.state == ChannelState.Closed
     for r in self.reqs:
-      if not r.completions and not (closed and not r.expect_closed_error and r.conn is None):
+      if not r.completions and not r.excused and not (closed and not r.expect_closed_error and r.conn is None):
         self.fail('never-completed', 'request %d (timeout %r, queued=%r, conn=%r) never completed' % (r.id, r.timeout, r.queued, r.conn))
     if closed:
       return
@@ -382,6 +404,7 @@ class Run(object):
       self.fail('retained-above-min', '%d connections retained after traffic stopped, min_watermark %d' % (len(live), self.cfg['min']))
     # no capacity leaked: a burst of max requests all reach connections
     self.cur_op = ['burst']
+    self.cfg = dict(self.cfg, open_fails=[])      # the endpoint accepts connections again
     n0 = len(self.reqs)
     for _ in range(self.cfg['max']):
       self.submit(None)
